@@ -3,6 +3,7 @@
 package main
 
 import (
+	"os"
 	"bytes"
 	"fmt"
 	"go/ast"
@@ -121,6 +122,124 @@ type tr struct {
 	fd         *ast.FuncDecl       // the function being translated (set by prepare)
 	closures   map[string]*ast.FuncLit // local `name := func(…) {…}` definitions seen so far
 	depth      int                 // inlining depth
+	retCont    func(t *tr, r *ast.ReturnStmt) string // set while a multi-result helper is inlined: what a `return` of it continues with
+}
+
+// saved is the flow-sensitive part of a translator's state; branches that are translated one after the other (then/else with the
+// continuation duplicated into both) each start from the state at the branch point.
+type saved struct {
+	aliases    map[string]ast.Expr
+	opaque     map[string]bool
+	pendingErr string
+}
+
+func (t *tr) save() saved {
+	s := saved{pendingErr: t.pendingErr}
+	if t.aliases != nil {
+		s.aliases = make(map[string]ast.Expr, len(t.aliases))
+		for k, v := range t.aliases {
+			s.aliases[k] = v
+		}
+	}
+	if t.opaque != nil {
+		s.opaque = make(map[string]bool, len(t.opaque))
+		for k, v := range t.opaque {
+			s.opaque[k] = v
+		}
+	}
+	return s
+}
+
+func (t *tr) restore(s saved) {
+	t.pendingErr = s.pendingErr
+	t.aliases, t.opaque = nil, nil
+	if s.aliases != nil {
+		t.aliases = make(map[string]ast.Expr, len(s.aliases))
+		for k, v := range s.aliases {
+			t.aliases[k] = v
+		}
+	}
+	if s.opaque != nil {
+		t.opaque = make(map[string]bool, len(s.opaque))
+		for k, v := range s.opaque {
+			t.opaque[k] = v
+		}
+	}
+}
+
+// inlineMulti: `a, b, c = helper(args…)` (or `:=`) where helper is a same-file function with several results whose body is
+// translatable: the helper's body is translated in place, and each of its `return e1, e2, e3` continues with the caller's
+// remaining statements in which a, b, c stand for e1, e2, e3 (state variables set on the way are threaded by Lean's shadowing).
+func (t *tr) inlineMulti(x *ast.AssignStmt, rest []ast.Stmt, tail, ind string) (string, bool) {
+	if !t.sp.Inline || t.depth > 3 || len(x.Rhs) != 1 || len(x.Lhs) < 2 {
+		return "", false
+	}
+	c, ok := x.Rhs[0].(*ast.CallExpr)
+	if !ok {
+		return "", false
+	}
+	hfd, recv := t.resolveHelper(c)
+	if hfd == nil || hfd.Body == nil || hfd.Type.Results == nil || hfd.Type.Results.NumFields() != len(x.Lhs) {
+		return "", false
+	}
+	var lhs []string
+	for _, l := range x.Lhs {
+		id, ok := l.(*ast.Ident)
+		if !ok {
+			return "", false
+		}
+		lhs = append(lhs, id.Name)
+	}
+	sp := t.sp
+	sp.ParamNames = nil
+	t2, ok := t.bindHelper(hfd, recv, c, sp)
+	if !ok {
+		return "", false
+	}
+	t2.fd = hfd
+	t2.pendingErr = ""
+	caller := t
+	callerState := t.save()
+	t2.retCont = func(h *tr, r *ast.ReturnStmt) string {
+		if len(r.Results) != len(lhs) {
+			failf(r, "inlined helper %s: bare or short return", hfd.Name.Name)
+		}
+		t3 := &tr{sp: caller.sp, file: caller.file, fd: caller.fd, closures: caller.closures, depth: caller.depth, retCont: caller.retCont}
+		t3.restore(callerState)
+		for i, n := range lhs {
+			if n == "_" {
+				continue
+			}
+			e := h.subst(r.Results[i])
+			delete(t3.opaque, n)
+			if id, isId := e.(*ast.Ident); isId && id.Name == n {
+				if t3.aliases != nil {
+					delete(t3.aliases, n)
+				}
+				continue
+			}
+			t3.alias(n, e)
+		}
+		// the helper's own pending error (its `err` of the latest failing call) is what `err` means if it is handed on
+		t3.pendingErr = h.pendingErr
+		return t3.block(rest, tail, ind)
+	}
+	out, done := "", false
+	func() {
+		defer func() {
+			if r := recover(); r != nil {
+				if _, isBail := r.(bail); !isBail {
+					panic(r)
+				}
+				if os.Getenv("EXTRACT_DEBUG") != "" {
+					fmt.Fprintf(os.Stderr, "inlineMulti %s: %v\n", hfd.Name.Name, r)
+				}
+			}
+		}()
+		out = t2.block(hfd.Body.List, "default", ind)
+		done = true
+	}()
+	return out, done
 }
 
 func (t *tr) alias(name string, e ast.Expr) {
@@ -876,6 +995,23 @@ func hasReturn(b []ast.Stmt) bool {
 }
 
 func (t *tr) ret(r *ast.ReturnStmt) string {
+	if t.retCont != nil {
+		return t.retCont(t, r)
+	}
+	if len(t.aliases) > 0 && len(r.Results) > 0 {
+		// results that are aliased locals (set by an inlined helper's return) stand for what they were set to
+		cp := *r
+		cp.Results = make([]ast.Expr, len(r.Results))
+		for i, e := range r.Results {
+			cp.Results[i] = e
+			if id, ok := e.(*ast.Ident); ok {
+				if a, ok := t.aliases[id.Name]; ok {
+					cp.Results[i] = a
+				}
+			}
+		}
+		r = &cp
+	}
 	switch t.sp.Ret {
 	case "errlast":
 		last := r.Results[len(r.Results)-1]
@@ -1304,6 +1440,7 @@ func (t *tr) block(b []ast.Stmt, tail string, ind string) string {
 		}
 		if len(x.Rhs) == 1 && src(x.Lhs[len(x.Lhs)-1]) == "err" {
 			if _, known := prefixLookup(t.sp.ErrCalls, callKey(t.subst(x.Rhs[0]))); !known {
+				st0 := t.save()
 				if b, ok := t.inlineErr(x.Rhs[0]); ok {
 					t.pendingErr = b
 					if t.opaque == nil {
@@ -1314,7 +1451,29 @@ func (t *tr) block(b []ast.Stmt, tail string, ind string) string {
 							t.opaque[id.Name] = true
 						}
 					}
-					return t.block(rest, tail, ind)
+					// the helper's other results are opaque from here on; if the rest of the function needs them, inline the
+					// helper with its returns continuing into the rest instead
+					out, done, why := "", false, interface{}(nil)
+					func() {
+						defer func() {
+							if r := recover(); r != nil {
+								if _, isBail := r.(bail); !isBail {
+									panic(r)
+								}
+								why = r
+							}
+						}()
+						out = t.block(rest, tail, ind)
+						done = true
+					}()
+					if done {
+						return out
+					}
+					t.restore(st0)
+					if out, ok := t.inlineMulti(x, rest, tail, ind); ok {
+						return out
+					}
+					panic(why)
 				}
 			}
 		}
@@ -1400,6 +1559,9 @@ func (t *tr) block(b []ast.Stmt, tail string, ind string) string {
 				return t.block(rest, tail, ind)
 			}
 		}
+		if out, ok := t.inlineMulti(x, rest, tail, ind); ok {
+			return out
+		}
 		if len(x.Lhs) >= 1 {
 			all := true
 			for _, l := range x.Lhs {
@@ -1481,6 +1643,14 @@ func (t *tr) block(b []ast.Stmt, tail string, ind string) string {
 		}
 		var c string
 		if x.Init != nil {
+			if as, ok := x.Init.(*ast.AssignStmt); ok && len(t.aliases) > 0 {
+				// names the init statement assigns no longer stand for what an inlined helper's return set them to
+				for _, l := range as.Lhs {
+					if id, ok := l.(*ast.Ident); ok {
+						delete(t.aliases, id.Name)
+					}
+				}
+			}
 			if r, ok := lookup(t.sp.InitCond, src(x.Init)+" ; "+src(t.subst(x.Cond))); ok {
 				c = r
 			} else if r, ok := lookup(t.sp.InitCond, t.initKey(x.Init)+" ; "+src(t.subst(x.Cond))); ok {
@@ -1520,7 +1690,9 @@ func (t *tr) block(b []ast.Stmt, tail string, ind string) string {
 		}
 		if hasReturn(x.Body.List) || hasReturn(els) {
 			// continuation-duplicating form
+			st := t.save()
 			thenPart := t.block(append(append([]ast.Stmt{}, x.Body.List...), rest...), tail, ind+"  ")
+			t.restore(st)
 			elsePart := t.block(append(append([]ast.Stmt{}, els...), rest...), tail, ind)
 			return "if " + c + " then\n" + ind + "  " + thenPart + "\n" + ind + "else\n" + ind + elsePart
 		}
